@@ -129,7 +129,7 @@ func TestVerif_C45(t *testing.T) {
 	vx.Run(t, "C45", func(c *vx.Ctx) {
 		kLex := vx.Pick(c, 4, 5)
 		kBeh := vx.Pick(c, 3, 4)
-		c.Rule(fmt.Sprintf("names = every distinct join of <= %d (lexical) / <= %d (behavioural) fragments of %q. lexical: Dir(root).resolve(name) for roots /abs/r, r, \"\", ., /, r/, r/../r — \"\" iff the name holds NUL, else the result is filepath.Clean and filepath.Rel(Clean(root), result) has no leading \"..\" element. behavioural: on a fresh real tree base/x1/../x%d/r (root path spelled plain and with a trailing slash, and for names of <= 3 fragments also as r/../r and with // and /./ inside) with a sentinel file a and directory b at every level outside r, the calls Rename(/b,name), Rename(name,/b), Mkdir, OpenFile(O_CREATE)+Write, RemoveAll are made in this order; after each the snapshot (paths, kinds, file sizes — all files have distinct sizes and sentinels are empty) of everything outside r must be unchanged and r must still be a directory; for names that the reference normalisation maps to the root, RemoveAll and Rename must fail and leave the inside of r unchanged; for names with NUL every call must fail and change nothing. non-trivial = name without NUL whose result was compared / whose calls were executed", kLex, kBeh, c45Frags, kBeh+2))
+		c.Rule(fmt.Sprintf("names = every distinct join of <= %d (lexical) / <= %d (behavioural) fragments of %q. lexical: Dir(root).resolve(name) for roots /abs/r, r, \"\", ., /, r/, r/../r — \"\" iff the name holds NUL, else the result is filepath.Clean and filepath.Rel(Clean(root), result) has no leading \"..\" element. behavioural: on a fresh real tree base/x1/../x%d/r (root path spelled plain and with a trailing slash, and for names of fewer fragments than the bound also as r/../r and with // and /./ inside) with a sentinel file a and directory b at every level outside r, the calls Rename(/b,name), Rename(name,/b), Mkdir, OpenFile(O_CREATE)+Write, RemoveAll are made in this order; after each the snapshot (paths, kinds, file sizes — all files have distinct sizes and sentinels are empty) of everything outside r must be unchanged and r must still be a directory; for names that the reference normalisation maps to the root, RemoveAll and Rename must fail and leave the inside of r unchanged; for names with NUL every call must fail and change nothing. non-trivial = name without NUL whose result was compared / whose calls were executed", kLex, kBeh, c45Frags, kBeh+2))
 		c.Assume("Linux: '/' is the only separator, so backslash spellings are ordinary file-name characters; symbolic links are out of scope (documented limitation of Dir)")
 		c.Assume("the roots \"/\", \"\", \".\" and relative roots are examined lexically only (resolve); the file-system calls are made only below a fresh temporary directory")
 		c.Assume("Rename's refusal of the root is observable only through the returned error: the operating system refuses to rename a directory onto its own ancestor or descendant anyway")
@@ -193,7 +193,7 @@ func TestVerif_C45(t *testing.T) {
 		}
 		levels := kBeh + 2 // more levels than a name can hold ".." segments
 		behNames := c45Names(kBeh)
-		allStyles := len(c45Names(3)) // names of <= 3 fragments come first and get all five root spellings
+		allStyles := len(c45Names(kBeh - 1)) // shorter names come first and get all five root spellings
 		c.Note("behavioural_names", len(behNames))
 		vx.Enumerate(c, "fs", vx.Opts{}, func(yield func(c45Beh) bool) {
 			for i, n := range behNames {
